@@ -1,6 +1,7 @@
 import Sudachi.Proofs.OovLattice
 import Sudachi.Proofs.OovIter
 import Sudachi.Proofs.OovRead
+import Sudachi.Proofs.OovTables
 /-!
 # C13 — Unknown-word candidates follow the character-class definition
 
@@ -834,5 +835,156 @@ example :
       ([⟨0, 0, 0, 0, [⟨0, 1, 1, 1, 1, true, 0⟩]⟩, ⟨0, 1, 0, 0, [⟨1, 2, 2, 2, 2, true, 0⟩]⟩, ⟨0, 2, 0, 0, []⟩, ⟨0, 2, 0, 0, []⟩],
        .err "Disconnect") := by
   decide
+
+/-! ## round e: the fallback length on the byte tables of a LONG-LIVED buffer (`Model/OovTables.lean`)
+
+The theorems above speak about one built buffer with one value per character (`Buf`).  The Rust object is recycled and its
+word-start table has one entry per byte; `get_word_candidate_length` looks it up through `mod_c2b`. -/
+
+/-- Clause "reaching to the next permissible word start", for `get_word_candidate_length` as written (loop over the following
+CHARACTERS, `can_bow(mod_c2b[i])`), on ANY contents of the tables - in particular whatever the bytes inside multi-byte characters
+hold: if the look-up is defined at every character of the text (`built_tables_lookups_defined` for built tables), the function
+returns `k ≥ 1` inside the text such that no character strictly between may start a word and character `idx + k` may, or is the
+end of the text. -/
+theorem word_candidate_length_spec (t : Tables) (idx : Nat) (h : idx < t.chars.length)
+    (hdef : ∀ j, j < t.chars.length → ∃ b, t.canBowChar j = some b) :
+    ∃ k, t.wordCandidateLength idx = some k ∧ 1 ≤ k ∧ idx + k ≤ t.chars.length ∧
+      (∀ j, idx < j → j < idx + k → t.canBowChar j = some false) ∧
+      (idx + k = t.chars.length ∨ t.canBowChar (idx + k) = some true) :=
+  tables_wordCandidateLength_spec t idx h hdef
+
+/-- non-vacuity, with STALE `true` bytes inside the characters (U+3091 U+30A1 U+3091: three bytes each, the small kana may not
+start a word): the hypothesis holds and the answer is 2, the stale bytes are never read -/
+example :
+    let t : Tables := ⟨[12433, 12449, 12433], [0, 3, 6, 9], [0, 0, 0, 1, 1, 1, 2, 2, 2, 3],
+      [true, true, true, false, true, true, true, true, true], [1, 1073741952, 1], [1, 1, 1]⟩
+    (∀ j, j < t.chars.length → ∃ b, t.canBowChar j = some b) ∧ t.wordCandidateLength 0 = some 2 := by
+  refine ⟨?_, by decide⟩
+  intro j hj
+  have : j = 0 ∨ j = 1 ∨ j = 2 := by simp at hj; omega
+  rcases this with h | h | h <;> subst h <;> simp [Tables.canBowChar, Tables.canBow]
+
+/-- The reset/build discipline (`reset`: every table `clear()`ed; `build`: `mod_bow.resize(len, false)` + one write per character
+start, `mod_cat.push`, `mod_cat_continuity.resize(len, 1)` + every index written): one analysis on an object that holds ANY previous
+table contents leaves exactly the tables a new object gets. -/
+theorem build_ignores_previous_tables (v : Variant) (bowFix : Bool) (t : Tables) (chars cats : List Nat) :
+    t.next v bowFix chars cats = Tables.empty.next v bowFix chars cats := rfl
+
+/-- … and those tables are the per-character buffer of the theorems above spread over the bytes: `mod_cat`, `mod_cat_continuity` are
+`buf.cats`, `buf.cont`; `mod_bow` is `buf.bow` at the character starts and `false` inside the characters (`bowBytes`, what the driver
+prints as `bow=`). `build` does not panic (no write out of range). -/
+theorem recycled_build_is_fresh_buffer (v : Variant) (bowFix : Bool) (tab : List (Nat × Nat)) (chars : List Nat) (buf : Buf)
+    (hb : mkBufV v bowFix tab chars = some buf) (t : Tables) :
+    t.next v bowFix chars buf.cats = some
+      { chars := buf.chars, c2b := c2bFrom 0 chars, b2c := b2cFrom 0 chars ++ [(chars.length - 1) + 1],
+        bow := bowBytes buf.chars buf.bow, cat := buf.cats, cont := buf.cont } := by
+  unfold mkBufV at hb
+  cases hc : Wire.allSome (chars.map (CharCat.lookup tab)) with
+  | none => simp [hc] at hb
+  | some cats =>
+    simp only [hc, Option.some.injEq] at hb
+    subst hb
+    have hl : cats.length = chars.length := by have := allSome_length _ _ hc; simpa using this
+    exact next_eq v bowFix t chars cats hl
+
+example : (⟨[97], [0, 1], [0, 1], [true], [32], [1]⟩ : Tables).next .forward true [12433, 12449, 12433] [1, 1073741952, 1]
+    = Tables.empty.next .forward true [12433, 12449, 12433] [1, 1073741952, 1] := rfl
+
+/-- the look-ups of `word_candidate_length_spec` are defined on the tables of every built text, and they are the word-start flags
+`build` computed for the characters -/
+theorem built_tables_lookups_defined (v : Variant) (bowFix : Bool) (t t' : Tables) (chars cats : List Nat)
+    (h : cats.length = chars.length) (ht : t.next v bowFix chars cats = some t') :
+    t'.chars = chars ∧ ∀ j, j < chars.length →
+      t'.canBowChar j = (if bowFix then bowTableFix cats else bowTable cats)[j]? ∧ ∃ b, t'.canBowChar j = some b := by
+  have hfl : (if bowFix then bowTableFix cats else bowTable cats).length = chars.length := by
+    split <;> simp [bowTableFix, bowTable, bowGo, bowGoV_length, h]
+  refine ⟨?_, ?_⟩
+  · rw [next_eq v bowFix t chars cats h] at ht
+    simp only [Option.some.injEq] at ht
+    subst ht; rfl
+  · intro j hj
+    have e := next_canBowChar v bowFix t t' chars cats h ht j hj
+    refine ⟨e, ?_⟩
+    rw [e, List.getElem?_eq_getElem (by omega)]
+    exact ⟨_, rfl⟩
+
+/-- Clause "the fallback provider adds one candidate reaching to the next permissible word start exactly when nothing else was
+produced", on a RECYCLED object: whatever the tables held before (`t` arbitrary), after `reset` + `build` of a text the Simple provider
+asked inside the text returns nothing when something was created and otherwise exactly one node `[offset, offset + k)` with `k`
+characterised by `NextStart` on the word-start flags of THIS text. -/
+theorem simple_candidate_reaches_next_word_start (cfg : SimpleCfg) (v : Variant) (bowFix : Bool) (t : Tables) (chars cats : List Nat)
+    (h : cats.length = chars.length) (offset : Nat) (ho : offset < chars.length) :
+    ∃ t', t.next v bowFix chars cats = some t' ∧
+      (∀ created, created ≠ 0 → simpleProvideT cfg t' offset created = .ok []) ∧
+      ∃ k, NextStart (if bowFix then bowTableFix cats else bowTable cats) offset k ∧
+        simpleProvideT cfg t' offset 0 = .ok [⟨offset, offset + k, cfg.l, cfg.r, cfg.c, true, cfg.pos⟩] := by
+  have hfl : (if bowFix then bowTableFix cats else bowTable cats).length = chars.length := by
+    split <;> simp [bowTableFix, bowTable, bowGo, bowGoV_length, h]
+  refine ⟨_, next_eq v bowFix t chars cats h, ?_, ?_⟩
+  · intro created hc; simp [simpleProvideT, hc]
+  · obtain ⟨hch, hlook⟩ := built_tables_lookups_defined v bowFix t _ chars cats h (next_eq v bowFix t chars cats h)
+    obtain ⟨k, h1, h2, h3, h4, h5⟩ := tables_wordCandidateLength_spec _ offset (by rw [hch]; exact ho)
+      (by intro j hj; rw [hch] at hj; exact (hlook j hj).2)
+    rw [hch] at h3 h5
+    refine ⟨k, ⟨h2, by omega, ?_, ?_⟩, by simp [simpleProvideT, h1]⟩
+    · intro j hj1 hj2
+      rw [← (hlook j (by omega)).1]; exact h4 j hj1 hj2
+    · rcases h5 with h5 | h5
+      · left; omega
+      · by_cases hk : offset + k < chars.length
+        · right; rw [← (hlook _ hk).1]; exact h5
+        · left; omega
+
+/-- non-vacuity: after the ten one-byte characters of `1234567890` the object analyses U+3091 U+30A1 U+3091 (classes DEFAULT,
+KATAKANA|NOOOVBOW, DEFAULT): the fallback candidate at 0 spans the small kana -/
+example :
+    (Tables.empty.next .forward true [49, 50, 51, 52, 53, 54, 55, 56, 57, 48] [1, 1, 1, 1, 1, 1, 1, 1, 1, 1]).bind
+      (fun t => (t.next .forward true [12433, 12449, 12433] [1, 1073741952, 1]).map
+        (fun t' => (t'.bow, simpleProvideT ⟨1, 2, 3, 4⟩ t' 0 0)))
+    = some ([true, false, false, false, false, false, true, false, false], .ok [⟨0, 2, 1, 2, 3, true, 4⟩]) := by
+  decide
+
+/-- Why the discipline matters (seeded change C13e, two edits that are each behaviour preserving): with a `reset` that keeps
+`mod_bow`, `build` leaves the bytes INSIDE the multi-byte characters as the earlier text wrote them - here `true` at bytes 1, 2, 4, 5,
+7, 8 after `1234567890`.  The function as written does not read them (answer 2, as `word_candidate_length_spec` says for any
+contents); a byte-wise scan of the table (`iter().position`, mapped back with `mod_b2c`) is right on the tables of a cleared object
+(2) and wrong on the stale ones: it answers 1, the base character is cut from the small kana. -/
+theorem stale_word_start_bytes_counterexample :
+    let first := Tables.empty.next .forward true [49, 50, 51, 52, 53, 54, 55, 56, 57, 48] [1, 1, 1, 1, 1, 1, 1, 1, 1, 1]
+    let view := fun (t' : Tables) => (t'.bow, t'.wordCandidateLength 0, t'.wordCandidateLengthByteScan 0)
+    (first.bind (fun t => (t.next .forward true [12433, 12449, 12433] [1, 1073741952, 1]).map view)
+      = some ([true, false, false, false, false, false, true, false, false], some 2, some 2)) ∧
+    (first.bind (fun t => (t.nextKeepBow .forward true [12433, 12449, 12433] [1, 1073741952, 1]).map view)
+      = some ([true, true, true, false, true, true, true, true, true], some 2, some 1)) := by
+  decide
+
+/-- The first edit of C13e ALONE is harmless for the function as written - for every text and every previous contents: after a
+`reset` that keeps `mod_bow`, `build` succeeds and `get_word_candidate_length` (character-wise look-up) still returns the distance to
+the next permissible word start of THIS text.  Together with `stale_word_start_bytes_counterexample` (the byte-wise scan on the same
+tables answers 1 instead of 2): each edit preserves the behaviour, the two together do not. -/
+theorem fallback_length_immune_to_stale_bytes (v : Variant) (bowFix : Bool) (t : Tables) (chars cats : List Nat)
+    (h : cats.length = chars.length) (idx : Nat) (hi : idx < chars.length) :
+    ∃ t', t.nextKeepBow v bowFix chars cats = some t' ∧
+      ∃ k, t'.wordCandidateLength idx = some k ∧ NextStart (if bowFix then bowTableFix cats else bowTable cats) idx k := by
+  have hfl : (if bowFix then bowTableFix cats else bowTable cats).length = chars.length := by
+    split <;> simp [bowTableFix, bowTable, bowGo, bowGoV_length, h]
+  obtain ⟨t', ht, hch, hlook⟩ := nextKeepBow_canBowChar v bowFix t chars cats h
+  refine ⟨t', ht, ?_⟩
+  obtain ⟨k, h1, h2, h3, h4, h5⟩ := tables_wordCandidateLength_spec t' idx (by rw [hch]; exact hi)
+    (by intro j hj; rw [hch] at hj; rw [hlook j hj, List.getElem?_eq_getElem (by omega)]; exact ⟨_, rfl⟩)
+  rw [hch] at h3 h5
+  refine ⟨k, h1, h2, by omega, ?_, ?_⟩
+  · intro j hj1 hj2
+    rw [← hlook j (by omega)]; exact h4 j hj1 hj2
+  · rcases h5 with h5 | h5
+    · left; omega
+    · by_cases hk : idx + k < chars.length
+      · right; rw [← hlook _ hk]; exact h5
+      · left; omega
+
+example :
+    (Tables.empty.next .forward true [49, 50, 51, 52, 53, 54, 55, 56, 57, 48] [1, 1, 1, 1, 1, 1, 1, 1, 1, 1]).bind
+      (fun t => (t.nextKeepBow .forward true [12433, 12449, 12433] [1, 1073741952, 1]).map (fun t' => t'.wordCandidateLength 0))
+    = some (some 2) := by decide
 
 end C13
